@@ -2,7 +2,7 @@
    Tp/*.v and followed by Print Assumptions.
    The model is the transcription of the tree WITH repo_patches/C08-remove-segment-boundaries.diff
    (tp_fixed = true); tp_fixed = false is the pinned tree and is used only by C08_remove_refuted. *)
-From Icv Require Import Base.Tac Tp.TpModel Tp.TpProofs Tp.TpObs Tp.TpOracleProofs Tp.TpCal Tp.TpCivil Tp.TpCalObs Tp.TpCalProofs Tp.TpDst Tp.TpTab Tp.TpNth Tp.TpNorm Tp.TpParse Tp.TpParseProofs.
+From Icv Require Import Base.Tac Tp.TpModel Tp.TpProofs Tp.TpObs Tp.TpOracleProofs Tp.TpCal Tp.TpCivil Tp.TpCalObs Tp.TpCalProofs Tp.TpDst Tp.TpTab Tp.TpNth Tp.TpNorm Tp.TpParse Tp.TpParseProofs Tp.TpRoll Tp.TpRollProofs.
 Local Open Scope Z_scope.
 
 (* ---------------- M1: interval algebra, all segment lists, all instants ---------------- *)
@@ -64,6 +64,99 @@ Theorem C08_oracle_accepts_model : forall probes ops,
   tp_oracle probes (tp_model_trace probes tp_empty ops) = None.
 Proof. exact tp_oracle_accepts_model. Qed.
 Print Assumptions C08_oracle_accepts_model.
+
+(* ---------------- rolling updates: Start() and the 5-minute timer, over any length of time ----------------
+   A period is started (UpdateRegion(now, now + 24 h, true)) and then goes through ANY sequence of timer rounds
+   (PurgeSegments(now - 3600); UpdateRegion(valid_end, now + 24 h, false)), each round seeing the referenced periods'
+   segment arrays as they are at that moment - computed earlier in the same round, or not yet (tp_rround).
+   Hypotheses (Tp/TpRoll.v, Section Rolling):
+     ownP            the period's own definition as a set of instants; the update function never reports an instant
+                     outside it, answers completely from the region's begin up to hz e >= e, and returns no segment
+                     ending after hz e (for the calendar function: hz e = the end of the last local day the day loop
+                     visits, or the end of a range of such a day running past it);
+     tp_round_ok     no segment of a referenced period begins after hz (now + 24 h);
+     tp_round_mono   the clock does not go back, and from one hour before a round on the referenced periods' inside
+                     sets only grow from one round to the next (true for periods without includes/excludes of their own).
+   Then at every instant from one hour before the last round (not before the start) up to valid_end, IsInside is
+       prefer_includes ? (own /\ ~E) \/ I : (own \/ I) /\ ~E
+   with I, E read from the referenced periods as they were at the period's last round that was not UpdateRegion's
+   early return (snd of tp_roll; C08_rolling_view: that is the current round whenever valid_end <= now + 24 h). *)
+Theorem C08_rolling_updates : forall (ownP : Z -> bool) upd hz prefer,
+  (forall b e t, tp_inside_segs (upd b e) t = true -> ownP t = true) ->
+  (forall b e t, b <= e -> b <= t < hz e -> tp_inside_segs (upd b e) t = ownP t) ->
+  (forall e, e <= hz e) ->
+  (forall b e sg, In sg (upd b e) -> snd sg <= hz e) ->
+  forall r0 rs,
+  tp_round_ok hz r0 -> tp_env_ok hz r0 rs ->
+  let s := fst (tp_roll upd prefer r0 rs) in
+  let rl := snd (tp_roll upd prefer r0 rs) in
+  forall t, Z.max (tp_rr_now r0) (tp_rr_now (last rs r0) - 3600) <= t < tp_ve_num s ->
+    tp_is_inside s t =
+    tp_region_spec prefer (ownP t) (tp_inside_any (tp_rr_incs rl) t) (tp_inside_any (tp_rr_excs rl) t).
+Proof. exact tp_rolling_updates. Qed.
+Print Assumptions C08_rolling_updates.
+
+Theorem C08_rolling_view : forall upd prefer r0 rs r,
+  tp_roll_effective r (fst (tp_roll upd prefer r0 rs)) = true ->
+  snd (tp_roll upd prefer r0 (rs ++ [r])) = r.
+Proof. exact tp_rolling_view. Qed.
+Print Assumptions C08_rolling_view.
+
+(* the oracle check of a timer round (run over the implementation's IsInside bits at the probes) accepts the model ... *)
+Theorem C08_rolling_oracle_accepts_model : forall (ownP : Z -> bool) upd hz prefer,
+  (forall b e t, tp_inside_segs (upd b e) t = true -> ownP t = true) ->
+  (forall b e t, b <= e -> b <= t < hz e -> tp_inside_segs (upd b e) t = ownP t) ->
+  (forall e, e <= hz e) ->
+  (forall b e sg, In sg (upd b e) -> snd sg <= hz e) ->
+  forall r0 rs probes,
+  tp_round_ok hz r0 -> tp_env_ok hz r0 rs ->
+  let s := fst (tp_roll upd prefer r0 rs) in
+  let rl := snd (tp_roll upd prefer r0 rs) in
+  tp_roll_answers_ok prefer (Z.max (tp_rr_now r0) (tp_rr_now (last rs r0) - 3600)) (tp_ve_num s)
+    (map (fun t => (t, (tp_is_inside s t, ownP t),
+                    (tp_inside_any (tp_rr_incs rl) t, tp_inside_any (tp_rr_excs rl) t))) probes) = None.
+Proof. exact tp_roll_oracle_accepts_model. Qed.
+Print Assumptions C08_rolling_oracle_accepts_model.
+
+(* ... and rejects any observation with a wrong answer at a probe of [lo, valid_end) *)
+Theorem C08_rolling_oracle_rejects_wrong_answer : forall prefer lo ve answers t o own i x,
+  In (t, (o, own), (i, x)) answers -> lo <= t < ve -> o <> tp_region_spec prefer own i x ->
+  tp_roll_answers_ok prefer lo ve answers <> None.
+Proof. exact tp_roll_answers_rejects_wrong. Qed.
+Print Assumptions C08_rolling_oracle_rejects_wrong_answer.
+
+(* not vacuous: "always" (own = everything, the update function returns the region itself) excluding a period that is
+   updated AFTER it in every round: the excluded stretch of the second day, which the excluded period computes only
+   after "always" has computed that region, is outside once the next round has run *)
+Example C08_nonvacuous_rolling :
+  let upd := fun b e : Z => [(b, e)] in
+  let x1 := [(1000, 2000)] in
+  let x2 := [(1000, 2000); (86400 + 400, 86400 + 450)] in
+  let r0 : tp_rround := (0, [], [x1]) in
+  let rs : list tp_rround := [(300, [], [x1]); (600, [], [x2]); (900, [], [x2])] in
+  tp_round_ok (fun e => e) r0 /\ tp_env_ok (fun e => e) r0 rs /\
+  tp_ve_num (fst (tp_roll upd true r0 rs)) = 86400 + 900 /\
+  tp_is_inside (fst (tp_roll upd true r0 rs)) 1500 = false /\
+  tp_is_inside (fst (tp_roll upd true r0 rs)) (86400 + 420) = false /\
+  tp_is_inside (fst (tp_roll upd true r0 rs)) (86400 + 500) = true /\
+  tp_is_inside (fst (tp_roll upd true r0 [(300, [], [x1]); (600, [], [x1])])) (86400 + 420) = true.
+Proof.
+  cbv zeta.
+  assert (forall a b t, tp_inside_any (tp_rr_excs a) t = true ->
+          (forall sg, In sg (concat (tp_rr_excs a)) -> In sg (concat (tp_rr_excs b))) ->
+          tp_inside_any (tp_rr_excs b) t = true) as Hsub.
+  { intros a b t H Hs. rewrite tp_inside_any_concat in *. unfold tp_inside_segs in *. apply existsb_exists in H.
+    destruct H as (sg & Hin & H). apply existsb_exists. exists sg. split; [apply Hs, Hin|exact H]. }
+  assert (forall (r : tp_rround), (forall sg, In sg (concat (tp_rr_excs r)) -> fst sg <= tp_rr_now r + 86400) ->
+          tp_rr_incs r = [] -> tp_round_ok (fun e => e) r) as Hok.
+  { intros r H Hi sg Hin. rewrite Hi in Hin. exact (H sg Hin). }
+  split; [|split].
+  - apply Hok; [|reflexivity]. intros sg Hin. cbn in Hin. destruct Hin as [<-|[]]. cbn. lia.
+  - cbn [tp_env_ok]. repeat split; try (cbn; lia); try (intros Hq; exact Hq);
+      try (apply Hok; [|reflexivity]; intros sg Hin; cbn in Hin; intuition (subst; cbn; lia));
+      try (intros Hq; apply (Hsub _ _ _ Hq); intros sg Hin; cbn in *; tauto).
+  - vm_compute. repeat split; reflexivity.
+Qed.
 
 (* ---------------- M2: calendar ----------------
    The model follows the source in two places, read from the regenerated facts Facts/Facts_c08.v:
